@@ -262,9 +262,31 @@ function op_quote_batch(req) {
 
 function deep_clone(x) { return JSON.parse(JSON.stringify(x)); }
 
+function revive(v) {
+    // the inverse of jsonable for request tables: cells that JSON cannot carry
+    if (Array.isArray(v)) return v.map(revive);
+    if (v !== null && typeof v === 'object' && v.__js__ !== undefined) {
+        switch (v.__js__) {
+            case 'undefined': return undefined;
+            case 'NaN': return NaN;
+            case 'Infinity': return Infinity;
+            case '-Infinity': return -Infinity;
+            case '-0': return -0;
+            case 'bigint': return BigInt(v.v);
+            case 'date': return new Date(v.v);
+        }
+    }
+    return v;
+}
+
+function snap(t) {
+    return JSON.stringify(t === null || t === undefined ? null : t.map((r) => Array.isArray(r) ? r.map(jsonable) : jsonable(r)));
+}
+
 function jsonable(v) {
     // make output cells JSON-safe while keeping the distinction null / undefined / NaN / numbers / strings / arrays
     if (v === undefined) return {__js__: 'undefined'};
+    if (v instanceof Date) return {__js__: 'date', v: v.toISOString()};
     if (typeof v === 'number' && !Number.isFinite(v)) return {__js__: String(v)};
     if (typeof v === 'bigint') return {__js__: 'bigint', v: String(v)};
     if (Array.isArray(v)) return v.map(jsonable);
@@ -277,10 +299,10 @@ function jsonable(v) {
 
 async function op_query_table(req) {
     // req: {query, input, join, input_cols, join_cols, normalize, init_code}
-    let input = req.input;
-    let join = req.join === undefined ? null : req.join;
-    let before_in = JSON.stringify(input);
-    let before_join = JSON.stringify(join);
+    let input = req.revive ? req.input.map(revive) : req.input;
+    let join = req.join === undefined || req.join === null ? null : (req.revive ? req.join.map(revive) : req.join);
+    let before_in = snap(input);
+    let before_join = snap(join);
     let in_rows = input.slice();
     let join_rows = join ? join.slice() : null;
     let out = [];
@@ -322,9 +344,9 @@ async function op_query_table(req) {
     if (join) identity_ok = identity_ok && join.length == join_rows.length && join.every((r, i) => r === join_rows[i]);
     let out_json = out.map((r) => Array.isArray(r) ? r.map(jsonable) : jsonable(r));
     // alias detection that does not depend on identity: scribble over every output row, then compare the sources again
-    let mid_in = JSON.stringify(input), mid_join = JSON.stringify(join);
+    let mid_in = snap(input), mid_join = snap(join);
     for (let r of out) { if (Array.isArray(r)) for (let i = 0; i < r.length; i++) r[i] = '#scribble#'; }
-    let after_in = JSON.stringify(input), after_join = JSON.stringify(join);
+    let after_in = snap(input), after_join = snap(join);
     return {
         out: out_json, header: out_cols,
         warnings: warnings, error: error,
